@@ -584,4 +584,417 @@ Proof.
   - assert (tag = []) as Et by (apply length0_nil; unfold lenZ in *; lia).
     rewrite Et. cbn [length drop]. rewrite Z.add_0_r. apply G. cbn; tauto.
 Qed.
+
+(* ===================================================================== *)
+(* 6. srtp_unprotect_rtcp                                                 *)
+(* ===================================================================== *)
+Lemma t_conseq {A} (P : world -> Prop) (m : M A) (Q Q' : A -> world -> Prop) (E E' : Z -> world -> Prop) :
+  tri P m Q' E' -> (forall a w, Q' a w -> Q a w) -> (forall s w, E' s w -> E s w) -> tri P m Q E.
+Proof. intros H I J w HP. specialize (H w HP). destruct (m w) as [w1 [a|st]]; auto. Qed.
+
+Lemma t_get_s ss D E : tri (S ss D) get_s (fun s w => s = ss /\ S ss D w) E.
+Proof. intros w Hw. cbn. split; [exact (proj1 Hw)|exact Hw]. Qed.
+
+Lemma t_keys_by_packet ss st tl0 :
+  stream_wf st -> 0 <= tl0 ->
+  tri (S ss (eq d0)) (keys_by_packet st L tl0)
+      (fun ik w => receiver_key_st st pkt L tl0 = inl ik /\ S ss (eq d0) w)
+      (fun s w => receiver_key_st st pkt L tl0 = inr s /\ S ss (eq d0) w).
+Proof.
+  intros (M & _ & _) Htl. unfold keys_by_packet, receiver_key_st.
+  destruct (negb (s_use_mki st)).
+  - destruct (s_keys st) as [|k t]; [apply t_exit; auto|apply t_ret; auto].
+  - destruct (L <? tl0) eqn:E1; [apply t_exit; auto|].
+    destruct (L - tl0 <? s_mki_size st) eqn:E2; [apply t_exit; auto|].
+    apply Z.ltb_ge in E1, E2.
+    eapply t_bind; [apply t_rd_src0; lia|intros m]. apply t_pure; intros ->.
+    destruct (find_mki (s_keys st) _ 0) as [r|]; [apply t_ret; auto|apply t_exit; auto].
+Qed.
+
+Lemma t_rx_prefix ss D cs0 prefix :
+  tri (S ss D)
+      (if negb (prefix =? 0) then
+         let '(s, cs', ks) := cipher_output cs0 prefix in
+         if negb (s =? st_ok) then exit_with st_cipher_fail
+         else if SRTP_MAX_TAG_LEN_c <? prefix then exit_with st_model_oob
+         else ret (cs', ks)
+       else ret (cs0, []))
+      (fun p w => rtcp_rx_prefix cs0 prefix = inl p /\ S ss D w)
+      (fun s w => rtcp_rx_prefix cs0 prefix = inr s /\ S ss D w).
+Proof.
+  unfold rtcp_rx_prefix. destruct (negb (prefix =? 0)); [|apply t_ret; auto].
+  destruct (cipher_output cs0 prefix) as [[s cs'] ks].
+  destruct (negb (s =? st_ok)); [apply t_exit; auto|].
+  destruct (SRTP_MAX_TAG_LEN_c <? prefix); [apply t_exit; auto|apply t_ret; auto].
+Qed.
+
+Definition UPreQ (u : cpre) (w : world) : Prop :=
+  (unprotect_rtcp_pre_fun ss0 C pkt = inl u /\ c_ref u = RList (be32 pkt 4) /\ c_ssrc u = be32 pkt 4 /\
+   0 <= c_enc_len u /\ 8 + c_enc_len u <= L /\ 8 + c_enc_len u <= C /\
+   L - (c_tag_len u + 4) - c_mki u = 8 + c_enc_len u) /\ S ss0 (eq d0) w.
+Definition UPreE (s : Z) (w : world) : Prop :=
+  unprotect_rtcp_pre_fun ss0 C pkt = inr s /\ S ss0 (eq d0) w.
+
+Lemma unprotect_rtcp_pre_tri : tri (S ss0 (eq d0)) unprotect_rtcp_pre UPreQ UPreE.
+Proof.
+  pose proof (eq_refl (unprotect_rtcp_pre_fun ss0 C pkt)) as SPEC.
+  unfold unprotect_rtcp_pre_fun at 2 in SPEC.
+  unfold rtcp_rx_trailer, rtcp_rx_ebit, rtcp_rx_index, rtcp_rx_conf in SPEC. cbv zeta in SPEC.
+  rewrite HLp, Hget in SPEC.
+  unfold unprotect_rtcp_pre, UPreQ, UPreE.
+  eapply t_bind; [apply t_get_b0|intros b]. apply t_pure; intros ->.
+  cbv beta zeta. norm_b.
+  change octets_in_rtcp_header_c with 8. change trailer_len with 4.
+  destruct (L <? 8 + 4) eqn:E0.
+  { apply t_bind_exit. intros w Hw. exact (conj SPEC Hw). }
+  apply t_bind_ret. apply Z.ltb_ge in E0.
+  eapply t_bind; [apply t_get_s|intros ss]. apply t_pure; intros ->.
+  rewrite Hget. apply t_bind_ret.
+  eapply t_bind; [apply t_get_stream_list; exact Hget|intros st]. apply t_pure; intros ->.
+  change (match s_keys st0 with k0 :: _ => ak_tag (k_rtcp_a k0) | [] => 0 end) with (rtcp_tl0 st0).
+  assert (T0 : 0 <= rtcp_tl0 st0).
+  { unfold rtcp_tl0. destruct (s_keys st0) as [|k0 t] eqn:EK0; [lia|].
+    assert (I0 : In k0 (s_keys st0)) by (rewrite EK0; left; reflexivity).
+    destruct (stream_wf_key _ _ Hwf I0) as (_ & _ & [T _]). lia. }
+  eapply t_bind2; [apply (t_keys_by_packet ss0 st0 (rtcp_tl0 st0) Hwf T0)| |intros [ki k]].
+  { intros s w [EK Hw]. rewrite EK in SPEC. exact (conj SPEC Hw). }
+  apply t_pure; intros EK. rewrite EK in SPEC. cbv beta iota in SPEC.
+  assert (Hk : In k (s_keys st0)).
+  { revert EK. unfold receiver_key_st. destruct (negb (s_use_mki st0)).
+    - destruct (s_keys st0) as [|k1 t]; [discriminate|]. intros H; injection H as _ <-. left; reflexivity.
+    - destruct (L <? rtcp_tl0 st0); [discriminate|]. destruct (L - rtcp_tl0 st0 <? s_mki_size st0); [discriminate|].
+      destruct (find_mki (s_keys st0) _ 0) as [r|] eqn:F; [|discriminate]. intros H; injection H as ->.
+      exact (find_mki_In _ _ _ _ F). }
+  pose proof (stream_wf_key _ _ Hwf Hk) as (MK & _ & TA).
+  pose proof Hwf as (M & U & _). rewrite max_mki_value in M.
+  pose proof (akey_prefix_le _ TA) as PL. pose proof TA as [T KP]. rewrite max_tag_value in T.
+  destruct (L <? 8 + 4 + s_mki_size st0 + ak_tag (k_rtcp_a k)) eqn:E1.
+  { apply t_bind_exit. intros w Hw. exact (conj SPEC Hw). }
+  apply t_bind_ret. apply Z.ltb_ge in E1.
+  eapply t_bind; [apply t_rd_src0; lia|intros tr]. apply t_pure; intros ->.
+  match goal with |- context [Bool.eqb ?a ?b] => destruct (Bool.eqb a b) eqn:EE end.
+  2:{ apply t_bind_exit. intros w Hw. exact (conj SPEC Hw). }
+  apply t_bind_ret.
+  unfold check_st.
+  match goal with |- context [rdb_check ?a ?b =? st_ok] => destruct (rdb_check a b =? st_ok) eqn:ER end.
+  2:{ apply t_bind_exit. intros w Hw. exact (conj SPEC Hw). }
+  apply t_bind_ret.
+  eapply t_bind2; [apply t_rx_prefix| |intros pre].
+  { intros s w [EP Hw]. rewrite EP in SPEC. exact (conj SPEC Hw). }
+  apply t_pure; intros EP. rewrite EP in SPEC.
+  eapply t_bind; [apply t_rd_src0; lia|intros m]. apply t_pure; intros ->.
+  match goal with |- context [SRTP_MAX_TAG_LEN_c <? lenZ ?a] => destruct (SRTP_MAX_TAG_LEN_c <? lenZ a) eqn:EM end.
+  { apply t_bind_exit. intros w Hw. exact (conj SPEC Hw). }
+  apply t_bind_ret.
+  eapply t_bind; [apply t_rd_src0; lia|intros t]. apply t_pure; intros ->.
+  match goal with |- context [beqb ?a ?b] => destruct (beqb a b) eqn:EB end.
+  2:{ apply t_bind_exit. intros w Hw. exact (conj SPEC Hw). }
+  apply t_bind_ret.
+  destruct (C <? u64 (L - 4 - s_mki_size st0 - ak_tag (k_rtcp_a k))) eqn:E2.
+  { apply t_bind_exit. intros w Hw. exact (conj SPEC Hw). }
+  apply t_bind_ret. apply Z.ltb_ge in E2. rewrite u64_small in E2 by lia.
+  apply t_ret. intros w Hw. split; [|exact Hw].
+  split; [exact SPEC|]. cbn [c_ref c_ssrc c_enc_len c_tag_len c_mki].
+  repeat split; lia.
+Qed.
+
+(* out of place: the 8-octet header is copied; afterwards the output holds the header and,
+   in place, still the input payload *)
+Lemma header_step ss n payload E :
+  8 <= L -> 8 <= C -> 0 <= n -> 8 + n <= L -> payload = slice (zn 8) (zn n) pkt ->
+  tri (S ss (eq d0)) (if al then ret tt else (h <- rd_src 0 8 ;; wr_dst 0 h))
+      (fun _ => S ss (facts_ok ((if al then [(8, payload)] else []) ++ [(0, take 8 pkt)]))) E.
+Proof.
+  intros H8 HC8 Hn HnL Hp.
+  assert (LPy : length payload = zn n).
+  { pose proof (lenZ_slice_eq 8 n pkt) as H. rewrite <- Hp in H. unfold lenZ, zn in *. lia. }
+  pose proof (hdr_len H8) as LH.
+  pose proof (in_slice 0 8) as I1. pose proof (in_slice 8 n) as I2.
+  destruct al eqn:EA; cbv iota in I1, I2.
+  - apply t_ret. intros w Hw. eapply St_weaken; [|exact Hw]. intros dd _ Hdd. rewrite <- Hdd.
+    constructor; [|constructor; [|constructor]]; (split; [cbn [fst]; lia|cbn [fst snd]]).
+    + rewrite LPy, I2 by lia. symmetry; exact Hp.
+    + replace (length (take 8 pkt)) with (zn 8) by (unfold lenZ, zn in *; lia). apply I1; lia.
+  - eapply t_bind; [apply t_rd_src; lia|intros h]. apply t_pure; intros (dd & _ & _ & ->).
+    rewrite I1 by lia.
+    apply t_weaken with (D' := facts_ok []); [intros; constructor|].
+    change (slice (zn 0) (zn 8) pkt) with (take 8 pkt).
+    apply t_wr_facts; [exact HD|lia|lia|constructor].
+Qed.
+
+Definition UQ (l : Z) (w : world) : Prop :=
+  exists out, unprotect_rtcp_fun ss0 C pkt = (w_s w, inl out) /\ l = lenZ out /\
+              take (zn l) (b_dst (w_b w)) = out /\ b_src (w_b w) = src /\ b_oob (w_b w) = false.
+Definition UE (s : Z) (w : world) : Prop :=
+  unprotect_rtcp_fun ss0 C pkt = (w_s w, inr s) /\ b_src (w_b w) = src /\ b_oob (w_b w) = false.
+
+Lemma unprotect_rtcp_post_tri u :
+  c_ref u = RList (be32 pkt 4) -> c_ssrc u = be32 pkt 4 ->
+  0 <= c_enc_len u -> 8 + c_enc_len u <= L -> 8 + c_enc_len u <= C ->
+  L - (c_tag_len u + 4) - c_mki u = 8 + c_enc_len u ->
+  tri (S ss0 (eq d0)) (unprotect_rtcp_post u)
+      (fun l w => exists out, unprotect_rtcp_post_fun ss0 u pkt = (w_s w, inl out) /\ l = lenZ out /\
+                  take (zn l) (b_dst (w_b w)) = out /\ b_src (w_b w) = src /\ b_oob (w_b w) = false)
+      (fun s w => unprotect_rtcp_post_fun ss0 u pkt = (w_s w, inr s) /\ b_src (w_b w) = src /\ b_oob (w_b w) = false).
+Proof.
+  intros Href Hssrc U1 U2 U3 U4.
+  pose proof (eq_refl (unprotect_rtcp_post_fun ss0 u pkt)) as SPEC.
+  unfold unprotect_rtcp_post_fun at 2 in SPEC. rewrite Hssrc, Hget in SPEC. cbv zeta in SPEC.
+  unfold unprotect_rtcp_post.
+  eapply t_bind; [apply t_get_b0|intros b]. apply t_pure; intros ->.
+  cbv beta zeta. norm_b.
+  change octets_in_rtcp_header_c with 8. change trailer_len with 4.
+  set (payload := slice (zn 8) (zn (c_enc_len u)) pkt) in *.
+  assert (LPy : lenZ payload = c_enc_len u) by (apply lenZ_slice_eq; lia).
+  assert (LH : lenZ (take 8 pkt) = 8) by (apply hdr_len; lia).
+  eapply t_bind; [apply (header_step ss0 (c_enc_len u) payload); [lia|lia|lia|lia|reflexivity]|intros ?].
+  eapply t_bind2; [apply (payload_step ss0 (c_conf u) (c_cs u) (c_enc_len u) payload [(0, take 8 pkt)])| |intros ?].
+  { lia. } { lia. } { lia. } { exact LPy. }
+  { intros EA. pose proof (in_slice 8 (c_enc_len u)) as I2. rewrite EA in I2. apply I2; lia. }
+  { away_tac. }
+  { intros s w (EB & -> & Hw). rewrite EB in SPEC. destruct (St_exit _ _ _ Hw) as (e1 & e2 & e3). rewrite e1. auto. }
+  apply t_ex; intros enc. apply t_pure; intros EB. apply t_pure; intros LE. rewrite EB in SPEC.
+  rewrite Href.
+  eapply t_bind; [eapply t_check_direction; exact Hget|intros ?].
+  unfold materialize. apply t_bind_ret.
+  eapply t_bind; [apply t_get_stream_list; apply dir_session_get; exact Hget|intros st2]. apply t_pure; intros ->.
+  eapply t_bind; [apply t_put_stream_list|intros ?].
+  apply t_ret. intros w (h0 & h1 & h2 & h3 & h4 & h5 & h6 & h7).
+  exists (take 8 pkt ++ enc). rewrite h0. split; [exact SPEC|].
+  assert (LW : lenZ (take 8 pkt ++ enc) = 8 + c_enc_len u) by (unfold lenZ in *; rewrite app_length; lia).
+  rewrite U4, u64_small by lia. split; [lia|]. split; [|auto].
+  rewrite <- LW, zn_len, <- slice_0.
+  replace (take 8 pkt ++ enc) with (concat [take 8 pkt; enc]) by (cbn [concat]; rewrite app_nil_r; reflexivity).
+  apply (chain_slice _ 0); [lia|]. cbn [chain]. rewrite LH.
+  repeat split; apply (fact_get _ _ _ _ h7); cbn; tauto.
+Qed.
+
+Lemma unprotect_rtcp_tri : tri (S ss0 (eq d0)) unprotect_rtcp UQ UE.
+Proof.
+  unfold unprotect_rtcp. eapply t_bind2; [apply unprotect_rtcp_pre_tri| |intros u].
+  - intros s w [EP Hw]. destruct (St_exit _ _ _ Hw) as (e1 & e2 & e3).
+    unfold UE, unprotect_rtcp_fun. rewrite EP, e1. auto.
+  - unfold UPreQ. apply t_pure. intros (EP & H1 & H2 & H3 & H4 & H5 & H6).
+    eapply t_conseq; [apply unprotect_rtcp_post_tri; assumption| |].
+    + intros l w (out & A & B). exists out. unfold unprotect_rtcp_fun. rewrite EP. auto.
+    + intros s w (A & B). unfold UE, unprotect_rtcp_fun. rewrite EP. auto.
+Qed.
 End RTCP_REF.
+
+(* ===================================================================== *)
+(* 7. the theorems, for worlds                                            *)
+(* ===================================================================== *)
+(* what is asked of the buffers of a call: sizes are size_t values of real objects; the
+   output block holds *out_len octets, the input block holds `len` octets; no out-of-bounds
+   access flagged so far *)
+Definition rtcp_world_ok (w : world) : Prop :=
+  session_wf (w_s w) /\ b_oob (w_b w) = false /\
+  size_ok (b_len (w_b w)) /\ size_ok (b_cap (w_b w)) /\
+  b_cap (w_b w) <= lenZ (b_dst (w_b w)) /\ b_len (w_b w) <= lenZ (cur_src (w_b w)).
+(* the packet handed to the call *)
+Definition in_pkt (w : world) : bytes := take (zn (b_len (w_b w))) (cur_src (w_b w)).
+
+Lemma in_pkt_len w : rtcp_world_ok w -> lenZ (in_pkt w) = b_len (w_b w).
+Proof.
+  intros (_ & _ & [H1 _] & _ & _ & H2). unfold in_pkt, lenZ in *. rewrite take_length. unfold zn. lia.
+Qed.
+Lemma St_init w :
+  St (b_len (w_b w)) (b_cap (w_b w)) (b_alias (w_b w)) (b_src (w_b w)) (b_dst (w_b w)) (w_s w) (eq (b_dst (w_b w))) w.
+Proof. intros. unfold St. repeat split. Qed.
+
+(* REFINEMENT, srtp_protect_rtcp, both alias modes *)
+Theorem protect_rtcp_refines w i st w' r :
+  rtcp_world_ok w -> list_get (ss_list (w_s w)) (be32 (in_pkt w) 4) = Some st ->
+  protect_rtcp i w = (w', r) ->
+  b_src (w_b w') = b_src (w_b w) /\ b_oob (w_b w') = false /\
+  match r with
+  | inl l => exists wire,
+      protect_rtcp_fun (w_s w) i (b_cap (w_b w)) (in_pkt w) = (w_s w', inl wire) /\
+      l = lenZ wire /\ take (zn l) (b_dst (w_b w')) = wire
+  | inr s => protect_rtcp_fun (w_s w) i (b_cap (w_b w)) (in_pkt w) = (w_s w', inr s)
+  end.
+Proof.
+  intros OK Hg E. pose proof (in_pkt_len w OK) as HLp.
+  destruct OK as ((_ & WL) & HO & HL & HC & HD & HS).
+  pose proof (list_get_SP _ _ _ _ WL Hg) as Wst.
+  pose proof (protect_rtcp_tri _ _ (b_alias (w_b w)) (b_src (w_b w)) _ (in_pkt w) HL HC HD eq_refl HLp
+                (w_s w) st Hg Wst i w (St_init w)) as T.
+  rewrite E in T. destruct r as [l|s].
+  - destruct T as (wire & A & B & Cc & Dd & Ee). split; [exact Dd|]. split; [exact Ee|]. exists wire. auto.
+  - destruct T as (A & Dd & Ee). auto.
+Qed.
+Print Assumptions protect_rtcp_refines.
+
+(* REFINEMENT, srtp_unprotect_rtcp, both alias modes *)
+Theorem unprotect_rtcp_refines w st w' r :
+  rtcp_world_ok w -> list_get (ss_list (w_s w)) (be32 (in_pkt w) 4) = Some st ->
+  unprotect_rtcp w = (w', r) ->
+  b_src (w_b w') = b_src (w_b w) /\ b_oob (w_b w') = false /\
+  match r with
+  | inl l => exists out,
+      unprotect_rtcp_fun (w_s w) (b_cap (w_b w)) (in_pkt w) = (w_s w', inl out) /\
+      l = lenZ out /\ take (zn l) (b_dst (w_b w')) = out
+  | inr s => unprotect_rtcp_fun (w_s w) (b_cap (w_b w)) (in_pkt w) = (w_s w', inr s)
+  end.
+Proof.
+  intros OK Hg E. pose proof (in_pkt_len w OK) as HLp.
+  destruct OK as ((_ & WL) & HO & HL & HC & HD & HS).
+  pose proof (list_get_SP _ _ _ _ WL Hg) as Wst.
+  pose proof (unprotect_rtcp_tri _ _ (b_alias (w_b w)) (b_src (w_b w)) _ (in_pkt w) HL HC HD eq_refl HLp
+                (w_s w) st Hg Wst w (St_init w)) as T.
+  rewrite E in T. destruct r as [l|s].
+  - destruct T as (out & A & B & Cc & Dd & Ee). split; [exact Dd|]. split; [exact Ee|]. exists out. auto.
+  - destruct T as (A & Dd & Ee). auto.
+Qed.
+Print Assumptions unprotect_rtcp_refines.
+
+(* ---- the wire format of a successful srtp_protect_rtcp ---- *)
+Lemma rtcp_wire_cfg st st' k seq pkt :
+  s_rtcp_serv st' = s_rtcp_serv st -> s_use_mki st' = s_use_mki st ->
+  rtcp_wire st' k seq pkt = rtcp_wire st k seq pkt.
+Proof. intros H1 H2. unfold rtcp_wire, rtcp_conf. rewrite H1, H2. reflexivity. Qed.
+
+Lemma sender_key_st_nth st i ki k :
+  sender_key_st st i = inl (ki, k) -> nth_error (s_keys st) (zn (if s_use_mki st then i else 0)) = Some k.
+Proof.
+  unfold sender_key_st. destruct (s_use_mki st && _); [discriminate|].
+  destruct (nth_error (s_keys st) _) eqn:E; [|discriminate]. intros H. injection H as _ <-. reflexivity.
+Qed.
+
+Lemma protect_rtcp_fun_ok ss i C pkt ss' wire st :
+  list_get (ss_list ss) (be32 pkt 4) = Some st ->
+  protect_rtcp_fun ss i C pkt = (ss', inl wire) ->
+  exists k, sender_key st i = Some k /\
+            rtcp_wire st k (u32 (wstart (s_rdb st) + 1)) pkt = Some wire /\
+            wstart (s_rdb st) < rtcp_ceiling_c /\
+            lenZ pkt + 4 + s_mki_size st + ak_tag (k_rtcp_a k) <= C /\
+            ss' = sess_put (dir_session ss (be32 pkt 4) st dir_srtp_sender_c) (be32 pkt 4)
+                    (set_rdb (dir_stream st dir_srtp_sender_c)
+                       {| wstart := u32 (wstart (s_rdb st) + 1); bitmask := bitmask (s_rdb st) |}).
+Proof.
+  intros Hg. unfold protect_rtcp_fun. cbv zeta.
+  destruct (lenZ pkt <? 8); [discriminate|]. rewrite Hg.
+  destruct (sender_key_st (dir_stream st dir_srtp_sender_c) i) as [[ki k]|e] eqn:EK; [|discriminate].
+  pose proof (dir_stream_cfg st dir_srtp_sender_c) as Hc. pose proof Hc as (_ & Em & Eu & _).
+  rewrite Em, dir_stream_rdb.
+  destruct (C <? _) eqn:E1; [discriminate|]. destruct (rtcp_ceiling_c <=? wstart (s_rdb st)) eqn:ER; [discriminate|].
+  cbn [wstart]. rewrite (rtcp_wire_cfg st (dir_stream st dir_srtp_sender_c)) by (try apply dir_stream_serv; exact Eu).
+  destruct (rtcp_wire st k _ pkt) as [wr|] eqn:EW; [|discriminate].
+  intros H. injection H as <- <-. exists k.
+  split; [exact (cfg_sender_key _ _ _ _ Hc (sender_key_st_nth _ _ _ _ EK))|].
+  split; [reflexivity|]. apply Z.ltb_ge in E1. apply Z.leb_gt in ER. auto.
+Qed.
+
+(* if srtp_protect_rtcp succeeds, the first l octets of the destination are rtcp_wire of the
+   stream, of the key selected by the MKI index, of the incremented SRTCP index and of the
+   packet — whether the call works in place or not, whatever the destination held before *)
+Theorem protect_rtcp_wire w i st w' l :
+  rtcp_world_ok w -> list_get (ss_list (w_s w)) (be32 (in_pkt w) 4) = Some st ->
+  protect_rtcp i w = (w', inl l) ->
+  exists k wire,
+    sender_key st i = Some k /\
+    rtcp_wire st k (u32 (wstart (s_rdb st) + 1)) (in_pkt w) = Some wire /\
+    l = lenZ wire /\ take (zn l) (b_dst (w_b w')) = wire.
+Proof.
+  intros OK Hg E. destruct (protect_rtcp_refines w i st w' _ OK Hg E) as (_ & _ & wire & A & B & Cc).
+  destruct (protect_rtcp_fun_ok _ _ _ _ _ _ _ Hg A) as (k & K1 & K2 & _). exists k, wire. auto.
+Qed.
+Print Assumptions protect_rtcp_wire.
+
+(* the same with the index written wstart + 1, for a replay database whose window start is
+   not negative (it is a uint32_t in C) *)
+Corollary protect_rtcp_wire_succ w i st w' l :
+  rtcp_world_ok w -> list_get (ss_list (w_s w)) (be32 (in_pkt w) 4) = Some st ->
+  0 <= wstart (s_rdb st) ->
+  protect_rtcp i w = (w', inl l) ->
+  exists k wire,
+    sender_key st i = Some k /\
+    rtcp_wire st k (wstart (s_rdb st) + 1) (in_pkt w) = Some wire /\
+    l = lenZ wire /\ take (zn l) (b_dst (w_b w')) = wire.
+Proof.
+  intros OK Hg H0 E. destruct (protect_rtcp_refines w i st w' _ OK Hg E) as (_ & _ & wire & A & B & Cc).
+  destruct (protect_rtcp_fun_ok _ _ _ _ _ _ _ Hg A) as (k & K1 & K2 & K3 & _). exists k, wire.
+  change rtcp_ceiling_c with 2147483647 in K3.
+  unfold u32 in K2. rewrite Z.mod_small in K2 by lia. auto.
+Qed.
+Print Assumptions protect_rtcp_wire_succ.
+
+(* ---- C12: alias mode and destination prefill do not matter ---- *)
+Theorem protect_rtcp_alias_independent w1 w2 i st w1' w2' r1 r2 :
+  rtcp_world_ok w1 -> rtcp_world_ok w2 ->
+  w_s w1 = w_s w2 -> b_cap (w_b w1) = b_cap (w_b w2) -> in_pkt w1 = in_pkt w2 ->
+  list_get (ss_list (w_s w1)) (be32 (in_pkt w1) 4) = Some st ->
+  protect_rtcp i w1 = (w1', r1) -> protect_rtcp i w2 = (w2', r2) ->
+  w_s w1' = w_s w2' /\
+  match r1, r2 with
+  | inl l1, inl l2 => l1 = l2 /\ take (zn l1) (b_dst (w_b w1')) = take (zn l2) (b_dst (w_b w2'))
+  | inr s1, inr s2 => s1 = s2
+  | _, _ => False
+  end /\
+  b_src (w_b w1') = b_src (w_b w1) /\ b_src (w_b w2') = b_src (w_b w2).
+Proof.
+  intros OK1 OK2 ES EC EP Hg E1 E2.
+  destruct (protect_rtcp_refines w1 i st w1' r1 OK1 Hg E1) as (S1 & _ & R1).
+  assert (Hg2 : list_get (ss_list (w_s w2)) (be32 (in_pkt w2) 4) = Some st) by (rewrite <- ES, <- EP; exact Hg).
+  destruct (protect_rtcp_refines w2 i st w2' r2 OK2 Hg2 E2) as (S2 & _ & R2).
+  rewrite <- ES, <- EC, <- EP in R2.
+  destruct r1 as [l1|s1], r2 as [l2|s2].
+  - destruct R1 as (x1 & A1 & B1 & C1), R2 as (x2 & A2 & B2 & C2). rewrite A1 in A2. injection A2 as Ea Eb.
+    subst x2. repeat split; try assumption; congruence.
+  - destruct R1 as (x1 & A1 & _). rewrite A1 in R2. discriminate R2.
+  - destruct R2 as (x2 & A2 & _). rewrite A2 in R1. discriminate R1.
+  - rewrite R1 in R2. injection R2 as Ea Eb. repeat split; assumption.
+Qed.
+Print Assumptions protect_rtcp_alias_independent.
+
+(* the instance asked for: w1 works in place on a block that starts with the packet, w2 out
+   of place from a source that starts with the same packet, into ANY destination prefill *)
+Corollary protect_rtcp_inplace_vs_outofplace w1 w2 i st w1' w2' r1 r2 :
+  rtcp_world_ok w1 -> rtcp_world_ok w2 ->
+  b_alias (w_b w1) = true -> b_alias (w_b w2) = false ->
+  w_s w1 = w_s w2 -> b_cap (w_b w1) = b_cap (w_b w2) -> b_len (w_b w1) = b_len (w_b w2) ->
+  take (zn (b_len (w_b w1))) (b_dst (w_b w1)) = take (zn (b_len (w_b w1))) (b_src (w_b w2)) ->
+  list_get (ss_list (w_s w1)) (be32 (in_pkt w1) 4) = Some st ->
+  protect_rtcp i w1 = (w1', r1) -> protect_rtcp i w2 = (w2', r2) ->
+  w_s w1' = w_s w2' /\
+  match r1, r2 with
+  | inl l1, inl l2 => l1 = l2 /\ take (zn l1) (b_dst (w_b w1')) = take (zn l2) (b_dst (w_b w2'))
+  | inr s1, inr s2 => s1 = s2
+  | _, _ => False
+  end /\
+  b_src (w_b w2') = b_src (w_b w2).
+Proof.
+  intros OK1 OK2 A1 A2 ES EC EL EP Hg E1 E2.
+  assert (EP' : in_pkt w1 = in_pkt w2).
+  { unfold in_pkt, cur_src. rewrite A1, A2, <- EL. exact EP. }
+  destruct (protect_rtcp_alias_independent w1 w2 i st w1' w2' r1 r2 OK1 OK2 ES EC EP' Hg E1 E2) as (H1 & H2 & _ & H4).
+  auto.
+Qed.
+Print Assumptions protect_rtcp_inplace_vs_outofplace.
+
+Theorem unprotect_rtcp_alias_independent w1 w2 st w1' w2' r1 r2 :
+  rtcp_world_ok w1 -> rtcp_world_ok w2 ->
+  w_s w1 = w_s w2 -> b_cap (w_b w1) = b_cap (w_b w2) -> in_pkt w1 = in_pkt w2 ->
+  list_get (ss_list (w_s w1)) (be32 (in_pkt w1) 4) = Some st ->
+  unprotect_rtcp w1 = (w1', r1) -> unprotect_rtcp w2 = (w2', r2) ->
+  w_s w1' = w_s w2' /\
+  match r1, r2 with
+  | inl l1, inl l2 => l1 = l2 /\ take (zn l1) (b_dst (w_b w1')) = take (zn l2) (b_dst (w_b w2'))
+  | inr s1, inr s2 => s1 = s2
+  | _, _ => False
+  end /\
+  b_src (w_b w1') = b_src (w_b w1) /\ b_src (w_b w2') = b_src (w_b w2).
+Proof.
+  intros OK1 OK2 ES EC EP Hg E1 E2.
+  destruct (unprotect_rtcp_refines w1 st w1' r1 OK1 Hg E1) as (S1 & _ & R1).
+  assert (Hg2 : list_get (ss_list (w_s w2)) (be32 (in_pkt w2) 4) = Some st) by (rewrite <- ES, <- EP; exact Hg).
+  destruct (unprotect_rtcp_refines w2 st w2' r2 OK2 Hg2 E2) as (S2 & _ & R2).
+  rewrite <- ES, <- EC, <- EP in R2.
+  destruct r1 as [l1|s1], r2 as [l2|s2].
+  - destruct R1 as (x1 & A1 & B1 & C1), R2 as (x2 & A2 & B2 & C2). rewrite A1 in A2. injection A2 as Ea Eb.
+    subst x2. repeat split; try assumption; congruence.
+  - destruct R1 as (x1 & A1 & _). rewrite A1 in R2. discriminate R2.
+  - destruct R2 as (x2 & A2 & _). rewrite A2 in R1. discriminate R1.
+  - rewrite R1 in R2. injection R2 as Ea Eb. repeat split; assumption.
+Qed.
+Print Assumptions unprotect_rtcp_alias_independent.
